@@ -152,7 +152,7 @@ def run(tier: str, seed: int) -> dict:
     quick = tier != "thorough"
     clock = Clock(26 if quick else 400)
     family = make_family()
-    grammars = [g for g in all_grammars(family) if g[0] != "H-infeasible"] + [S_GRAMMAR]  # grammar mutation is C10's subject
+    grammars = [S_GRAMMAR] + [g for g in all_grammars(family) if g[0] != "H-infeasible"]  # grammar mutation is C10's subject
     junk = []
     n_seeds = 3 if quick else 25
     gene_lengths = [24] if quick else [6, 24, 96]
@@ -265,7 +265,7 @@ def run(tier: str, seed: int) -> dict:
                             break
                         run_seed = seed * 7919 + s * 101 + gl
                         try:
-                            with watchdog(8):
+                            with watchdog(3 if quick else 8):
                                 case(kind, dk, gl, run_seed, gname, classes, start, gdesc)
                         except Timeout:
                             timeouts[f"{kind}/{gname}"] = timeouts.get(f"{kind}/{gname}", 0) + 1
